@@ -393,7 +393,10 @@ func (p *Process) internalStop() error {
 }
 
 func (p *Process) stopProcess(cancelReadinessFuncs bool) error {
-	p.runCancelFn()
+	if cancelReadinessFuncs {
+		// an internal stop (failed readiness probe) must leave the restart loop alive
+		p.runCancelFn()
+	}
 	verif.Yield("stop:enter")
 	if !p.isRunning() {
 		verif.Yield("stop:notrunning")
